@@ -37,6 +37,11 @@ def run(check: Check, repo: Repo, tier: str) -> None:
     K.enum_direction(check, repo)
     K.str_verbatim(check, repo)
     K.literal_rule_delegates(check, repo)
+    # the literal rule sees the input type TypeInfo hands it: a slot or stack left over from an
+    # earlier node makes the rule skip or mistype a constant argument (shared with C12)
+    from rules import validation_rules as V
+    from sa.resolve import ClassIndex
+    V.typeinfo_balance(check, repo, ClassIndex(repo))
     K.domain_guards(check, repo, INPUT_ROLES)
     check.floor("DOMAIN-GUARDS", 6, "input coercers and helpers")
     sc = K.scalar_coercers(repo)
